@@ -23,7 +23,7 @@ RULE = (
     "is injected at EVERY applicable position of that definition (enumerated, not sampled): a symbol shared by two of "
     "state/control/calibration (3 pairs x each symbol); update map missing a state / with an extra key / with a key "
     "swapped for an undeclared or control symbol; calibration map missing / extra / swapped key; process noise missing / "
-    "negative / keyed by a state, an undeclared symbol, a string, or a pair of controls standing in for a control's own entry; sensor expression using a control / an undeclared "
+    "negative / keyed by a state, an undeclared symbol, a string, or a pair of controls standing in for a control's own entry; sensor expression using a control / an undeclared symbol spelled like a declared one (other assumptions) / an undeclared "
     "symbol; sensor-noise map missing a sensor / with an extra sensor / missing a reading / naming an unknown reading; "
     "plus generated pairs of faults. Oracle: ui.Model refuses, or else every compile entry point the fault is visible to "
     "raises, returns nothing and writes no header/source. Buckets are (entry point, fault class). Non-trivial = the base "
@@ -118,6 +118,9 @@ def all_faults(m):
             F.append({"group": "sensor_noise", "cls": "sensor-noise-unknown-reading", "key": key, "reading": r})
             F.append({"group": "sensor_noise", "cls": "sensor-noise-extra-reading", "key": key, "reading": r})
             F.append({"group": "sensor_symbol", "cls": "sensor-uses-undeclared", "key": key, "reading": r})
+            for t in (m["state"][:1] + m["calib"][:1]):
+                # an undeclared symbol spelled like a declared one (sympy symbols with other assumptions are other symbols)
+                F.append({"group": "sensor_symbol", "cls": "sensor-uses-assumption-twin", "key": key, "reading": r, "sym": t})
             for c in m["control"]:
                 F.append({"group": "sensor_symbol", "cls": "sensor-uses-control", "key": key, "reading": r, "sym": c})
     F.append({"group": "sensor_noise", "cls": "sensor-noise-extra-sensor"})
@@ -199,6 +202,12 @@ def apply_fault(a, f):
         a["sensor_noises"][f["key"]]["ghost_reading"] = 0.5
     elif cls == "sensor-uses-undeclared":
         a["sensor_models"][f["key"]][f["reading"]] = a["sensor_models"][f["key"]][f["reading"]] + 2 * und
+    elif cls == "sensor-uses-assumption-twin":
+        import sympy
+
+        twin = sympy.Symbol(sym.name) if sym.is_positive else sympy.Symbol(sym.name, positive=True)
+        assert twin != sym
+        a["sensor_models"][f["key"]][f["reading"]] = a["sensor_models"][f["key"]][f["reading"]] + 2 * twin
     elif cls == "sensor-uses-control":
         import sympy
 
